@@ -58,6 +58,8 @@ pub fn op_alphabet() -> Vec<Op> {
         Op::Infix("hi", 111, true, "A"),
         Op::Infix("hi", 111, false, "B"),
         Op::Infix("hi", 125, true, "C"),
+        // the same handler object as the first `hi` registration, other precedence and associativity
+        Op::Infix("hi", 125, false, "A"),
         Op::Infix("+", 110, true, "A"),
         Op::Infix("+", 130, true, "B"),
         Op::Infix("/", 120, false, "A"),
@@ -71,29 +73,39 @@ fn tag1(name: &'static str, tag: &'static str) -> impl Fn(Vec<Value>) -> Value +
     move |args: Vec<Value>| Value::String(format!("{}:{}({})", name, tag, args.iter().map(show_value).collect::<Vec<_>>().join(",")))
 }
 
+type H1 = Arc<dyn Fn(Vec<Value>) -> expression_engine::Result<Value> + Send + Sync>;
+type H2 = Arc<dyn Fn(Value, Value) -> expression_engine::Result<Value> + Send + Sync>;
+type HU = Arc<dyn Fn(Value) -> expression_engine::Result<Value> + Send + Sync>;
+
+/// One handler OBJECT per (kind, name, tag): registering the same (name, tag) again passes a
+/// clone of the same Arc, as an application that keeps its handlers in statics would
+/// ("registered twice", "registered again with another precedence").
+fn handlers() -> &'static std::sync::Mutex<(std::collections::HashMap<String, H1>, std::collections::HashMap<String, H2>, std::collections::HashMap<String, HU>)> {
+    static H: std::sync::OnceLock<std::sync::Mutex<(std::collections::HashMap<String, H1>, std::collections::HashMap<String, H2>, std::collections::HashMap<String, HU>)>> = std::sync::OnceLock::new();
+    H.get_or_init(Default::default)
+}
+
 fn apply_engine(op: &Op) {
     match op {
         Op::Func(n, t) => {
             let f = tag1(n, t);
-            expression_engine::register_function(n, Arc::new(move |a| Ok(f(a))))
+            let h = handlers().lock().unwrap().0.entry(format!("fn:{}:{}", n, t)).or_insert_with(|| Arc::new(move |a| Ok(f(a)))).clone();
+            expression_engine::register_function(n, h)
         }
         Op::Prefix(n, t) => {
             let f = tag1(n, t);
-            expression_engine::register_prefix_op(n, Arc::new(move |a| Ok(f(vec![a]))))
+            let h = handlers().lock().unwrap().2.entry(format!("pre:{}:{}", n, t)).or_insert_with(|| Arc::new(move |a| Ok(f(vec![a])))).clone();
+            expression_engine::register_prefix_op(n, h)
         }
         Op::Postfix(n, t) => {
             let f = tag1(n, t);
-            expression_engine::register_postfix_op(n, Arc::new(move |a| Ok(f(vec![a]))))
+            let h = handlers().lock().unwrap().2.entry(format!("post:{}:{}", n, t)).or_insert_with(|| Arc::new(move |a| Ok(f(vec![a])))).clone();
+            expression_engine::register_postfix_op(n, h)
         }
         Op::Infix(n, p, l, t) => {
             let f = tag1(n, t);
-            expression_engine::register_infix_op(
-                n,
-                *p,
-                InfixOpType::CALC,
-                if *l { InfixOpAssociativity::LEFT } else { InfixOpAssociativity::RIGHT },
-                Arc::new(move |a, b| Ok(f(vec![a, b]))),
-            )
+            let h = handlers().lock().unwrap().1.entry(format!("in:{}:{}", n, t)).or_insert_with(|| Arc::new(move |a, b| Ok(f(vec![a, b])))).clone();
+            expression_engine::register_infix_op(n, *p, InfixOpType::CALC, if *l { InfixOpAssociativity::LEFT } else { InfixOpAssociativity::RIGHT }, h)
         }
     }
 }
